@@ -134,6 +134,10 @@ func (t *Telnet) Open(a *Args) error {
 		return err
 	}
 
+	// text collected while an earlier connection of this object was being opened belongs to that
+	// connection (it stays behind when that open failed or nothing was read afterwards)
+	t.initialBuf = nil
+
 	err = t.handleControlChars(a)
 	if err != nil {
 		return err
